@@ -385,7 +385,7 @@ def run(tier, seed):
         "reference is re-judged (is_valid / is_unique) against a fresh elaboration; transitions = queries and "
         "re-judged references; non-trivial = designs with a shared non-leaf definition, or edits that broke a path")
     found = {}
-    deadline = time.time() + (200 if tier == "quick" else 3000)
+    deadline = time.time() + (900 if tier == "quick" else 6000)
     cs = cases(tier)
     k = seed % 7
     engine_b.run_cases(ID, cs[k:] + cs[:k], cov, found, deadline, level="F_hier/" + tier)
